@@ -117,19 +117,28 @@ def shims(ctx, n):
     return fails
 
 
-def fermionic_rep_jax(ctx, n):
-    """JAX version of the fermionic representation vs the exact model of C17"""
+def fermionic_rep_jax(ctx, n, fails=None):
+    """JAX version of the fermionic representation vs the exact model of C17; a block the connector does not return is a
+    correspondence mismatch (not a harness error), and the same call on the NumPy connector is the failing-input search:
+    the list of sector blocks must not depend on the connector"""
     import piquasso as pq
     jc = pq.JaxConnector()
+    nc = pq.NumpyConnector()
+    fails = [] if fails is None else fails
     rng = np.random.default_rng(ctx.seed + 99)
     lines, metas = [], []
     for it in range(n):
         d = int(rng.integers(1, 5)); cutoff = int(rng.integers(1, d + 2))
         U = (rng.integers(-4, 5, size=(d, d)) + 1j * rng.integers(-4, 5, size=(d, d))) / 4.0
         reps = jc.calculate_interferometer_on_fermionic_fock_space(jc.np.array(U), cutoff)
+        nreps = nc.calculate_interferometer_on_fermionic_fock_space(np.array(U), cutoff)
+        if len(reps) != len(nreps) or any(np.asarray(a).shape != np.asarray(b).shape or np.abs(np.asarray(a) - np.asarray(b)).max() > 1e-9 * (1 + np.abs(U).max() ** d)
+                                          for a, b in zip(reps, nreps)):
+            fails.append((f"fermirep-connectors:{d}:{cutoff}", f"calculate_interferometer_on_fermionic_fock_space(d={d}, cutoff={cutoff}): JAX returns {len(reps)} sector blocks, NumPy {len(nreps)} (or their values differ)",
+                          dict(d=d, cutoff=cutoff, U=[[str(z) for z in r] for r in U.tolist()])))
         for nn in range(cutoff):
             lines.append(f"fermirep {d} {nn} " + ",".join(qi(z) for z in U.reshape(-1)))
-            metas.append(np.asarray(reps[nn]))
+            metas.append(np.asarray(reps[nn]) if nn < len(reps) else np.zeros((0, 0)))
     outs = ctx.lean_run(lines)
     mism = []
     for l, r, o in zip(lines, metas, outs):
@@ -141,6 +150,42 @@ def fermionic_rep_jax(ctx, n):
         if M.shape != r.shape or np.abs(M - r).max() > 1e-9 * (1 + np.abs(M).max()):
             mism.append((l[:100], f"JAX fermionic representation differs from the model by {np.abs(M - r).max() if M.shape == r.shape else 'shape'}"))
     return mism
+
+
+def fermionic_jax_states(ctx, n):
+    """fermionic PureFock simulator, NumPy vs JAX: passive gates with det(U) != 1 on superpositions that contain the fully
+    occupied sector of the gate's modes (the 1x1 block det U) next to other sectors"""
+    import piquasso as pq
+    from piquasso.fermionic import PureFockSimulator as FS
+    rng = np.random.default_rng(ctx.seed + 977)
+    fails = []
+    for it in range(n):
+        d = int(rng.integers(2, 4))
+        cutoff = d + 1
+        U = haar(rng, d)
+        occ_full = [1] * d
+        occ_other = [0] * d
+        if rng.random() < 0.5:
+            occ_other[int(rng.integers(0, d))] = 1
+        res = {}
+        for nm, conn in (("numpy", pq.NumpyConnector()), ("jax", pq.JaxConnector())):
+            try:
+                with pq.Program() as prog:
+                    pq.Q() | pq.StateVector(occ_full, coefficient=0.6) | pq.StateVector(occ_other, coefficient=0.8)
+                    pq.Q() | pq.Interferometer(U)
+                st = FS(d=d, config=pq.Config(cutoff=cutoff), connector=conn).execute(prog).state
+                res[nm] = np.asarray(st.state_vector)
+            except Exception as e:
+                res[nm] = e
+        ctx.count(("fermi-jax-state", it), nontrivial=True)
+        a, b = res["numpy"], res["jax"]
+        if isinstance(a, Exception) and isinstance(b, Exception):
+            continue
+        if isinstance(a, Exception) or isinstance(b, Exception) or a.shape != b.shape or np.abs(a - b).max() > 1e-8:
+            fails.append((f"fermi-jax-state:{d}", f"fermionic PureFock state after an interferometer on 0.6|{occ_full}> + 0.8|{occ_other}> differs between NumPy and JAX: "
+                          + (repr(a)[:80] if isinstance(a, Exception) else repr(b)[:80] if isinstance(b, Exception) else f"max diff {np.abs(a - b).max():.3g}"),
+                          dict(d=d, U=[[str(z) for z in r] for r in U.tolist()], occ=[occ_full, occ_other])))
+    return fails
 
 
 # ------------------------------------------------------------------ program search
@@ -428,8 +473,9 @@ def run(ctx):
     with warnings.catch_warnings():
         warnings.simplefilter("ignore")
         pinned_known_finding(ctx)
-        mism = fermionic_rep_jax(ctx, 6 if quick else 60)
-        fails = shims(ctx, 40 if quick else 600) + purefock(ctx, 40 if quick else 700) + others(ctx, 20 if quick else 400) + jitted(ctx, 3 if quick else 25)
+        ffails = []
+        mism = fermionic_rep_jax(ctx, 6 if quick else 60, ffails)
+        fails = ffails + fermionic_jax_states(ctx, 6 if quick else 60) + shims(ctx, 40 if quick else 600) + purefock(ctx, 40 if quick else 700) + others(ctx, 20 if quick else 400) + jitted(ctx, 3 if quick else 25)
     seen = set()
     for key, msg, inp in fails:
         if key not in seen:
